@@ -4,6 +4,7 @@
 *******************************************************************************/
 #include "msgpack_readers.h"
 #include "bitserializer/conversion_detail/memory_utils.h"
+#include <limits>
 
 /*
 -----------------------------------------------------------
@@ -258,8 +259,16 @@ namespace
 
 	void SkipValueImpl(std::string_view inputData, size_t& pos)
 	{
-		if (pos < inputData.size())
+		// Iterative: a nested array or map only adds to the number of values which are left to skip,
+		// so the nesting depth of the (untrusted) input never becomes recursion depth.
+		uint64_t pendingValues = 1;
+		while (pendingValues != 0)
 		{
+			--pendingValues;
+			if (pos >= inputData.size()) {
+				throw ParsingException("No more values to read", 0, pos);
+			}
+
 			const auto& byteCodeInfo = ByteCodeTable[static_cast<uint_fast8_t>(inputData[pos++])];
 			if (byteCodeInfo.Type == ValueType::Unknown) {
 				throw ParsingException("Invalid byte code (reserved by MsgPack specification)", 0, pos - 1);
@@ -283,32 +292,21 @@ namespace
 				extSize = 0;
 			}
 
-			if (pos + size <= inputData.size())
-			{
-				pos += size;
-				if (extSize)
-				{
-					if (byteCodeInfo.Type == ValueType::Map)
-					{
-						for (uint32_t i = 0; i < extSize; ++i)
-						{
-							SkipValueImpl(inputData, pos);
-							SkipValueImpl(inputData, pos);
-						}
-					}
-					else if (byteCodeInfo.Type == ValueType::Array)
-					{
-						for (uint32_t i = 0; i < extSize; ++i)
-						{
-							SkipValueImpl(inputData, pos);
-						}
-					}
-				}
-				return;
+			if (pos + size > inputData.size()) {
+				throw ParsingException("Unexpected end of input archive", 0, pos);
 			}
-			throw ParsingException("Unexpected end of input archive", 0, pos);
+			pos += size;
+
+			if (extSize)
+			{
+				const uint64_t nestedValues = byteCodeInfo.Type == ValueType::Map ? static_cast<uint64_t>(extSize) * 2
+					: byteCodeInfo.Type == ValueType::Array ? static_cast<uint64_t>(extSize) : 0;
+				if (nestedValues > std::numeric_limits<uint64_t>::max() - pendingValues) {
+					throw ParsingException("Too many nested values", 0, pos);
+				}
+				pendingValues += nestedValues;
+			}
 		}
-		throw ParsingException("No more values to read", 0, pos);
 	}
 
 	void HandleMismatchedTypesPolicy(std::string_view inputData, size_t& pos, ValueType actualType, MismatchedTypesPolicy mismatchedTypesPolicy)
@@ -875,8 +873,17 @@ namespace
 
 	void SkipValueImpl(Detail::CBinaryStreamReader& binaryStreamReader)
 	{
-		if (const auto byteCode = binaryStreamReader.ReadByte())
+		// Iterative: a nested array or map only adds to the number of values which are left to skip,
+		// so the nesting depth of the (untrusted) input never becomes recursion depth.
+		uint64_t pendingValues = 1;
+		while (pendingValues != 0)
 		{
+			--pendingValues;
+			const auto byteCode = binaryStreamReader.ReadByte();
+			if (!byteCode) {
+				throw ParsingException("No more values to read", 0, binaryStreamReader.GetPosition());
+			}
+
 			const auto& byteCodeInfo = ByteCodeTable[static_cast<uint_fast8_t>(*byteCode)];
 			if (byteCodeInfo.Type == ValueType::Unknown) {
 				throw ParsingException("Invalid byte code (reserved by MsgPack specification)", 0, binaryStreamReader.GetPosition());
@@ -899,31 +906,20 @@ namespace
 				extSize = 0;
 			}
 
-			if (size == 0 || binaryStreamReader.SetPosition(binaryStreamReader.GetPosition() + size))
-			{
-				if (extSize)
-				{
-					if (byteCodeInfo.Type == ValueType::Map)
-					{
-						for (uint32_t i = 0; i < extSize; ++i)
-						{
-							SkipValueImpl(binaryStreamReader);
-							SkipValueImpl(binaryStreamReader);
-						}
-					}
-					else if (byteCodeInfo.Type == ValueType::Array)
-					{
-						for (uint32_t i = 0; i < extSize; ++i)
-						{
-							SkipValueImpl(binaryStreamReader);
-						}
-					}
-				}
-				return;
+			if (size != 0 && !binaryStreamReader.SetPosition(binaryStreamReader.GetPosition() + size)) {
+				throw ParsingException("Unexpected end of input archive", 0, binaryStreamReader.GetPosition());
 			}
-			throw ParsingException("Unexpected end of input archive", 0, binaryStreamReader.GetPosition());
+
+			if (extSize)
+			{
+				const uint64_t nestedValues = byteCodeInfo.Type == ValueType::Map ? static_cast<uint64_t>(extSize) * 2
+					: byteCodeInfo.Type == ValueType::Array ? static_cast<uint64_t>(extSize) : 0;
+				if (nestedValues > std::numeric_limits<uint64_t>::max() - pendingValues) {
+					throw ParsingException("Too many nested values", 0, binaryStreamReader.GetPosition());
+				}
+				pendingValues += nestedValues;
+			}
 		}
-		throw ParsingException("No more values to read", 0, binaryStreamReader.GetPosition());
 	}
 
 	void HandleMismatchedTypesPolicy(Detail::CBinaryStreamReader& binaryStreamReader, ValueType actualType, MismatchedTypesPolicy mismatchedTypesPolicy)
